@@ -115,6 +115,13 @@ Theorem C02_listing_order_irrelevant : forall (it it' : item) (u : url) (k : cla
 Proof. exact listing_order_irrelevant. Qed.
 Print Assumptions C02_listing_order_irrelevant.
 
+(* ... and the order inside a role's privilege list and an assignment's identity list *)
+Theorem C02_inner_order_irrelevant : forall (it it' : item) (u : url) (k : claims),
+  has_duplicate_names it = false -> inner_permuted it it' ->
+  is_allowed (compute it) u k = is_allowed (compute it') u k.
+Proof. exact inner_order_irrelevant. Qed.
+Print Assumptions C02_inner_order_irrelevant.
+
 (* any change of ASCII letter case in the request's path and query (lower, upper, mixed),
    for every flattened item, for both behaviours *)
 Theorem C02_request_case_irrelevant : forall (fixed : bool) (f : N -> N) (c : computed) (u : url) (k : claims),
